@@ -149,6 +149,11 @@ func (f *localWrapper) Config() proxyv1alpha1.FlowControlSchema {
 	return f.localConfig
 }
 
+// Pin implements flowcontrol.Pinner
+func (f *localWrapper) Pin() flowcontrol.FlowControl {
+	return f.FlowControl
+}
+
 func (f *localWrapper) Sync(schema proxyv1alpha1.FlowControlSchema) {
 	if reflect.DeepEqual(schema, f.localConfig) {
 		return
@@ -189,6 +194,14 @@ type remoteWrapper struct {
 
 func (f *remoteWrapper) Config() proxyv1alpha1.RateLimitItemConfiguration {
 	return f.remoteConfig
+}
+
+// Pin implements flowcontrol.Pinner
+func (f *remoteWrapper) Pin() flowcontrol.FlowControl {
+	if f.GlobalCounterFlowControl == nil {
+		return nil
+	}
+	return f.GlobalCounterFlowControl
 }
 
 func (f *remoteWrapper) Sync(limitItem proxyv1alpha1.RateLimitItemConfiguration) {
